@@ -30,7 +30,15 @@ ASSUMPTIONS = ["path operations look only at the last base segment and the argum
 SEG = A.SEG
 PREFIXES = ["http://h.com", "//u@h.com:81", "x:", "",
             # authorities that are written but host-less, or that collapse to nothing when canonicalised
-            "//@", "foo://:", "x://:80", "//u@"]
+            "//@", "foo://:", "x://:80", "//u@",
+            # the same shapes taken as they are (encoded=True): lower-case escapes, an escaped slash in either case stay as written
+            "enc|http://h.com", "enc|"]
+
+
+def mk(base):
+    if base.startswith("enc|"):
+        return impl.URL(base[4:], encoded=True)
+    return impl.URL(base)
 MULTI = ["c/d", "c/", "c//d", "./c", "c/..", "c/./d", "..", ".", "", "%2F", "a b/é", "c/d/"]
 SUFFIXES = ["", ".x", ".x y", ".é", ".a.b", ".%41", ".tar.gz"]
 
@@ -46,7 +54,8 @@ def base_paths(maxseg):
                 out.append(("/" + p + trail) if n else "")
                 if n and not p.startswith("/") and ":" not in t[0]:
                     out.append(p + trail)
-    out += ["/d/archive.tar.gz", "/d/.hidden.tar.gz", "x.y.z", "/a.b/c.d.e/", "/...tar", "/..gz", "/d/a.b.b", "/pkg-1.0.0", "/%D1%84.%D1%84.%D1%84", "t.t.t"]
+    out += ["/d/archive.tar.gz", "/d/.hidden.tar.gz", "x.y.z", "/a.b/c.d.e/", "/...tar", "/..gz", "/d/a.b.b", "/pkg-1.0.0", "/%D1%84.%D1%84.%D1%84", "t.t.t",
+            "/dir/a%2fb.txt", "/a%2fb/c%2Fd.e", "/%2f", "/x%2e%2fy"]
     return list(dict.fromkeys(out))
 
 
@@ -107,7 +116,7 @@ def case_child(acc, prefix, path, s):
     acc.evals += 1
     base = prefix + path
     try:
-        u = impl.URL(base)
+        u = mk(base)
     except (ValueError, TypeError):
         acc.count("base_rejected")
         return None
@@ -157,7 +166,7 @@ def case_join2(acc, prefix, path, a_, b_):
     acc.evals += 1
     base = prefix + path
     try:
-        u = impl.URL(base)
+        u = mk(base)
     except (ValueError, TypeError):
         acc.count("base_rejected")
         return None
@@ -185,7 +194,7 @@ def case_with_name(acc, prefix, path, n, keep=False):
     acc.evals += 1
     base = prefix + path + ("?q=1#f" if keep else "")
     try:
-        u = impl.URL(base)
+        u = mk(base)
         r = u.with_name(n, keep_query=True, keep_fragment=True) if keep else u.with_name(n)
     except (ValueError, TypeError):
         acc.count("rejected")
@@ -214,7 +223,7 @@ def case_with_suffix(acc, prefix, path, x, keep=False):
     acc.evals += 1
     base = prefix + path + ("?q=1#f" if keep else "")
     try:
-        u = impl.URL(base)
+        u = mk(base)
         r = u.with_suffix(x, keep_query=True, keep_fragment=True) if keep else u.with_suffix(x)
     except (ValueError, TypeError):
         acc.count("rejected")
@@ -252,7 +261,7 @@ def case_parent(acc, prefix, path):
     acc.evals += 1
     base = prefix + path + "?q#f"
     try:
-        u = impl.URL(base)
+        u = mk(base)
         p = u.parent
         probs = check_static(u) + check_static(p)
     except (ValueError, TypeError):
@@ -298,6 +307,10 @@ def task_paths(prefix, maxseg, k, part, nparts):
             continue
         if "//" in prefix and path and not path.startswith("/"):
             continue
+        if prefix == "enc|" and path.startswith("//"):
+            continue
+        if prefix.startswith("enc|") and any(sg in (".", "..") for sg in path.split("/")):
+            continue   # a pre-encoded base is taken as the caller wrote it; bases that already break the dot-segment rule are not judged
         if prefix == "" and path.startswith("//"):
             continue
         if prefix == "x:" and path.startswith("//"):
